@@ -700,7 +700,7 @@ func (w *World) Files(oc *OutputCfg, ww *WeatherWorld) FileSet {
 		dropYear, emptyYear := 0, 0
 		if f := w.WxFault; f != nil {
 			switch f.Kind {
-			case "end-early":
+			case "end-early", "torn-tail":
 				hi = f.Day
 			case "start-late":
 				lo = f.Day
@@ -724,6 +724,24 @@ func (w *World) Files(oc *OutputCfg, ww *WeatherWorld) FileSet {
 				}
 			}
 			fs["weather/wx/"+name] = content
+		}
+		if f := w.WxFault; f != nil && f.Kind == "torn-tail" {
+			// the file that holds the record of f.Day ends in the middle of that record (a copy that was interrupted)
+			last := ""
+			for name := range fs {
+				if strings.HasPrefix(name, "weather/wx/") && !strings.HasSuffix(name, "preco.txt") && name > last {
+					last = name
+				}
+			}
+			if w.Cfg.WeatherLayout == 0 {
+				last = "weather/wx/MET_" + w.FCode + "." + yearExt(f.Day.Year())
+			}
+			if c, ok := fs[last]; ok {
+				c = strings.TrimRight(c, "\r\n")
+				if k := strings.LastIndexByte(c, '\n'); k > 0 && len(c)-k > 6 {
+					fs[last] = c[:k+1+(len(c)-k-1)/2]
+				}
+			}
 		}
 	}
 	if w.Cfg.Preco {
